@@ -75,6 +75,7 @@ let runners : (string * (z list -> z list)) list = [
   "exc", run_exc;
   "suspend", run_suspend;
   "once", run_once;
+  "onceconf", run_onceconf;
 ]
 
 let () =
